@@ -1,8 +1,8 @@
 #!/usr/bin/env python3
-"""Generates /verif/MANIFEST.json from the table in tools/checks.json.
+"""Generates /verif/MANIFEST.json from the table in tools/checks.d/CNN.json.
 
 A property is listed under `checks` iff its binary source exists under mc/props/src/bin or
-mc/cprops/src/bin AND it has an entry in tools/checks.json; everything else goes to
+mc/cprops/src/bin AND it has an entry in tools/checks.d/CNN.json; everything else goes to
 `not_applicable` with the reason recorded there (or "not built yet")."""
 import json
 import os
@@ -10,7 +10,8 @@ import subprocess
 
 ROOT = "/verif"
 props = [json.loads(l) for l in open(f"{ROOT}/properties.jsonl")]
-table = json.load(open(f"{ROOT}/tools/checks.json"))
+import glob
+table = {os.path.basename(f)[:-5]: json.load(open(f)) for f in sorted(glob.glob(f"{ROOT}/tools/checks.d/C*.json"))}
 
 
 def has_bin(pid):
